@@ -49,7 +49,8 @@ def freqs(rep, prog):
     k = repr(tkey(t))
     is_sorted = isinstance(t, Opq) and t.k and t.k[0] == 'sorted'
     rep.ob('R09.freqs', 'merge:sorted', bool(is_sorted), f'= {t!r:.160}', site)
-    dedup = (isinstance(core_t, Comp) and core_t.kind == 'set') or "'unique'" in k or 'fromkeys' in k or _tolerant_merge(f.node)
+    dedup = (isinstance(core_t, Comp) and core_t.kind == 'set') or (isinstance(core_t, Opq) and len(core_t.k) == 2 and core_t.k[0] == 'set') \
+        or "'unique'" in k or 'fromkeys' in k or _tolerant_merge(f.node)
     rep.ob('R09.freqs', 'merge:distinct', bool(dedup), 'duplicates are removed', site)
     # the multiset of contributed frequencies: every component, [w] or all harmonics 0..floor(w_max/w)
     as_list = lambda c_: Comp(c_.elt, c_.gens, 'list') if isinstance(c_, Comp) else c_
